@@ -806,6 +806,9 @@ class Evaluator:
         if name in mi.functions:
             return atom(("global", mi.name + "." + name))
         if name in mi.globals:
+            gv = mi.globals[name]
+            if isinstance(gv, ast.Constant) and isinstance(gv.value, (str, int, float, bool, type(None))) and self._assigned_once(mi, name):
+                return const(gv.value)  # a module-level named literal (`_DRIFT = "drift"`) is the literal
             return atom(("global", mi.name + "." + name))
         import builtins as _b
         if not hasattr(_b, name) and not self._enclosing_has(name):
@@ -814,6 +817,15 @@ class Evaluator:
             self.emit("undefread", node, name=name, value=v)
             return v
         return atom(("global", "builtins." + name))
+
+    def _assigned_once(self, mi, name):
+        n = 0
+        for nd in ast.walk(mi.tree):
+            if isinstance(nd, ast.Name) and nd.id == name and isinstance(nd.ctx, ast.Store):
+                n += 1
+            if isinstance(nd, ast.Global) and name in nd.names:
+                return False
+        return n == 1
 
     def _enclosing_has(self, name):
         """Name bound in a lexically enclosing function (closures / nested helpers)."""
@@ -865,6 +877,8 @@ class Evaluator:
             return atom(("global", a[1] + "." + name))
         if a is not None and a[0] == "ite":
             return T.mk_ite(a[1], self.mk_getattr(a[2], name), self.mk_getattr(a[3], name))
+        if name == "ndim":
+            return atom(("call", "len", (atom(("getattr", base, "shape")),), ()))  # x.ndim == len(x.shape)
         return atom(("getattr", base, name))
 
     def load_attr(self, name, st, node, quiet=False):
@@ -1053,6 +1067,12 @@ class Evaluator:
         if bb is not None and bb[0] in ("tuple", "list", "set") and T.is_pure_const(a) and all(T.is_pure_const(x) for x in bb[1]):
             res = any(x == a for x in bb[1])
             return const(res != neg)
+        if bb is not None and bb[0] == "mcall" and bb[2] == "keys" and not bb[3] and not bb[4]:
+            b = bb[1]  # `k in d.keys()` is `k in d`
+        if bb is not None and bb[0] in ("tuple", "list", "set") and 1 <= len(bb[1]) <= 6 and all(T.is_pure_const(x) for x in bb[1]):
+            # membership in a literal collection of constants is a disjunction of equalities (it then distributes over gated phis)
+            t = T.mk_or([T.mk_cmp("==", a, x) for x in bb[1]])
+            return T.mk_not(t) if neg else t
         t = atom(("in", a, b))
         return T.mk_not(t) if neg else t
 
@@ -1305,6 +1325,10 @@ class Evaluator:
             return args[0]
         if d == "getattr" or d == "setattr":
             raise AnalysisError("dynamic attribute access (%s) at line %d" % (d, node.lineno))
+        if d == "slice" and not kwargs and 1 <= len(args) <= 3:
+            # slice(a, b) is the object x[a:b] subscripts with
+            lo, hi, stp = (T.NONE, args[0], T.NONE) if len(args) == 1 else (args[0], args[1], args[2] if len(args) == 3 else T.NONE)
+            return atom(("slice", lo, hi, stp))
         if d == "abs" and len(args) == 1 and not kwargs:
             res = T.mk_abs(args[0])  # |x| = |-x|: canonical sign
             self.emit("call", node, callee=("lib", d), fi=None, args=tuple(args), kwargs=(), result=res)
